@@ -32,7 +32,7 @@ def run(ctx, out, budget):
                 "document. Java-style float literals are substituted in one layout. Non-trivial = distinct (document, layout) pairs "
                 "whose element order differs from the original.")
     rng = ctx.rng(0)
-    n = 60 if budget == "quick" else 1200
+    n = 60 if budget == "quick" else 4800
     nlay = 5 if budget == "quick" else 8
     cases = [casgen.CasGen(rng, n_types=rng.randint(1, 5), n_fs=rng.randint(1, 10), xmi_safe=(kk % 4 != 3)).build() for kk in range(n)]
     stage_a = []
